@@ -433,3 +433,157 @@ package migrate
 //@   trusted
 //@   ensures err == nil ==> ex != nil && GvcFresh(ex) && ex.drv == drv && ex.dir == dir && ex.rrw == rrw && ex.log != nil
 //@   ensures err == nil ==> drv != nil && dir != nil && rrw != nil
+
+// ---------------------------------------------------------------------------------------
+// C08 (narrow): the statement scanner never indexes or slices out of range, and positions are
+// absolute.  Data-structure invariant: `total` is the offset of the cursor in the original
+// input `src` (total == len(src) - len(input) + pos, pos inside input); every function of the
+// scanner keeps it, and emit records the offset of the first byte of the current input as
+// Stmt.Pos.  Termination and the text of the statements are not covered.
+
+//@ import "unicode/utf8"
+//@ spec func gvcCursorOK(s *Scanner) bool {
+//@ spec 	return 0 <= s.pos && s.pos <= len(s.input) && len(s.input) <= len(s.src) &&
+//@ spec 		s.total == len(s.src)-len(s.input)+s.pos
+//@ spec }
+//@ extern func utf8.DecodeRuneInString(s string) (r rune, w int)
+//@   pure
+//@   ensures 0 <= w && w <= len(s) && (len(s) > 0 ==> w >= 1) && r >= 0
+//@ import "unicode"
+// specNoLead(s, f): no leading rune of s satisfies f (uninterpreted; TrimLeftFunc establishes
+// it and is the identity on strings that have it)
+//@ spec func specNoLead(s string, f func(rune) bool) bool { panic("uninterpreted") }
+//@ func specNoLead(s string, f func(rune) bool) (b bool)
+//@   trusted
+//@   pure
+//@ extern func strings.TrimLeftFunc(s string, f func(rune) bool) (r string)
+//@   pure
+//@   ensures len(r) <= len(s) && specNoLead(r, f) && (specNoLead(s, f) ==> r == s)
+// the current input has no leading white space (so skipSpaces is the identity on it)
+//@ spec func gvcTrimmed(s *Scanner) bool { return specNoLead(s.input, unicode.IsSpace) }
+//@ extern func strings.TrimSpace(s string) (r string)
+//@   pure
+//@   ensures len(r) <= len(s)
+//@ extern func strings.ReplaceAll(s, old, new string) (r string)
+//@   pure
+//@ extern func strings.SplitN(s, sep string, n int) (r []string)
+//@   ensures len(r) >= 1 && (n > 0 ==> len(r) <= n) && GvcFresh(r)
+//@   ensures len(r) == 1 ==> r[0] == s
+//@   ensures len(r) == 2 && n == 2 ==> s == r[0]+sep+r[1]
+//@ func (s *Scanner) error(pos int, format string, args ...any) (err error)
+//@   trusted
+//@   ensures err != nil
+
+//@ func (s *Scanner) addPos(p int)
+//@   requires s != nil
+//@   modifies s.pos, s.total
+//@   ensures s.pos == old(s.pos)+p && s.total == old(s.total)+p
+
+//@ func (s *Scanner) next() (r rune)
+//@   requires s != nil && gvcCursorOK(s)
+//@   modifies s.pos, s.total, s.width
+//@   ensures cursor-stays-consistent: gvcCursorOK(s) && s.pos >= old(s.pos)
+//@   ensures eos-iff-exhausted: (r == eos) == (old(s.pos) >= len(s.input))
+//@   ensures advances-by-width: old(s.pos) < len(s.input) ==> s.pos == old(s.pos)+s.width && s.width >= 1
+//@   ensures stays-at-end: old(s.pos) >= len(s.input) ==> r == eos && s.pos == old(s.pos) && s.total == old(s.total) && s.width == old(s.width)
+
+//@ func (s *Scanner) pick() (r rune)
+//@   requires s != nil && gvcCursorOK(s)
+//@   modifies s.pos, s.total, s.width
+//@   ensures cursor-untouched: s.pos == old(s.pos) && s.total == old(s.total) && s.width == old(s.width)
+
+//@ func (s *Scanner) skipSpaces()
+//@   requires s != nil && gvcCursorOK(s) && (s.pos == 0 || gvcTrimmed(s))
+//@   modifies s.input, s.total
+//@   ensures cursor-stays-consistent: gvcCursorOK(s) && s.pos == old(s.pos) && gvcTrimmed(s) && s.src == old(s.src)
+//@   ensures identity-on-trimmed-input: old(gvcTrimmed(s)) ==> s.input == old(s.input) && s.total == old(s.total)
+
+//@ func (s *Scanner) emit(text string) (st *Stmt)
+//@   requires s != nil && gvcCursorOK(s) && len(text) <= s.pos
+//@   modifies s.input, s.pos, s.comments
+//@   ensures position-is-absolute-offset: st != nil && st.Pos == old(s.total)-old(s.pos) && st.Pos == len(s.src)-old(len(s.input)) && len(st.Text) <= len(text)
+//@   ensures cursor-stays-consistent: gvcCursorOK(s) && s.pos == 0 && s.total == old(s.total)
+
+//@ func (s *Scanner) setDelim(d string) (err error)
+//@   requires s != nil
+//@   modifies s.delim
+//@   ensures err != nil ==> s.delim == old(s.delim)
+
+//@ func (s *Scanner) init(input string) (err error)
+//@   requires s != nil
+//@   modifies s.comments, s.pos, s.total, s.width, s.src, s.input, s.delim
+//@   ensures cursor-starts-consistent: err == nil ==> gvcCursorOK(s) && s.pos == 0 && s.src == input
+
+//@ func (s *Scanner) delimCmd() (err error)
+//@   requires s != nil && gvcCursorOK(s) && s.pos >= len(delimiterCmd) && gvcTrimmed(s)
+//@   modifies s.input, s.pos, s.total, s.width, s.delim, s.comments
+//@   ensures cursor-stays-consistent: gvcCursorOK(s) && (s.pos == 0 || gvcTrimmed(s)) && s.src == old(s.src)
+//@   loop 1 invariant gvcCursorOK(s) && s.pos >= len(delimiterCmd)
+
+// ---- thin safety contracts for the scanning loop and its helpers: with a consistent cursor
+// on entry every index and slice expression is in range and the cursor is consistent again
+// on exit (termination is not verified).
+//@ import "regexp"
+//@ extern func (re *regexp.Regexp) MatchString(s string) (b bool)
+//@   pure
+//@ extern func (re *regexp.Regexp) FindString(s string) (m string)
+//@   pure
+//@   ensures len(m) <= len(s)
+//@ extern func strings.Index(s, substr string) (i int)
+//@   pure
+//@   ensures i >= -1 && (i >= 0 ==> i+len(substr) <= len(s))
+//@ extern func strings.EqualFold(a, b string) (r bool)
+//@   pure
+
+//@ func (s *Scanner) skipQuote(quote rune) (err error)
+//@   requires s != nil && gvcCursorOK(s)
+//@   modifies s.pos, s.total, s.width
+//@   ensures gvcCursorOK(s) && s.pos >= old(s.pos)
+//@   loop 1 invariant gvcCursorOK(s) && s.pos >= old(s.pos)
+
+//@ func (s *Scanner) skipDollarQuote() (err error)
+//@   requires s != nil && gvcCursorOK(s) && s.pos >= 1
+//@   modifies s.pos, s.total, s.width
+//@   ensures gvcCursorOK(s) && s.pos >= 1
+//@   loop 1 invariant gvcCursorOK(s) && s.pos >= 1
+
+//@ func (s *Scanner) skipGoCount() (err error)
+//@   requires s != nil && gvcCursorOK(s)
+//@   modifies s.pos, s.total, s.width
+//@   ensures gvcCursorOK(s) && s.pos >= old(s.pos)
+//@   loop 1 invariant gvcCursorOK(s) && s.pos >= c && c >= 0
+
+//@ func (s *Scanner) comment(left, right string)
+//@   requires s != nil && gvcCursorOK(s) && gvcTrimmed(s)
+//@   modifies s.pos, s.total, s.input, s.comments, heap(E_string)
+//@   ensures gvcCursorOK(s) && gvcTrimmed(s)
+
+//@ func (s *Scanner) stmt() (st *Stmt, err error)
+//@   requires s != nil && gvcCursorOK(s) && s.pos == 0
+//@   modifies *s, heap(E_string)
+//@   ensures gvcCursorOK(s) && s.src == old(s.src)
+//@   ensures err == nil ==> st != nil && s.pos == 0 && len(st.Text) <= s.total
+//@   loop 1 invariant gvcCursorOK(s) && gvcTrimmed(s) && depth >= 0 && s.src == old(s.src)
+
+//@ func (s *Scanner) skipBeginAtomic() (err error)
+//@   requires s != nil && gvcCursorOK(s) && s.pos >= 1
+//@   modifies s.pos, s.total, heap(E_string)
+//@   ensures gvcCursorOK(s) && s.pos >= 1
+//@   loop 1 invariant body != nil && gvcCursorOK(body) && body.pos == 0 && len(body.src) == len(s.input)-s.pos && gvcCursorOK(s) && s.pos >= 1 && GvcFresh(body)
+
+//@ func (s *Scanner) skipBeginTryCatch() (err error)
+//@   requires s != nil && gvcCursorOK(s) && s.pos >= 1
+//@   modifies s.pos, s.total, heap(E_string)
+//@   ensures gvcCursorOK(s) && s.pos >= 1
+//@   loop 1 invariant body != nil && gvcCursorOK(body) && body.pos == 0 && len(body.src) == len(s.input)-s.pos && gvcCursorOK(s) && s.pos >= 1 && GvcFresh(body)
+
+//@ func (s *Scanner) skipBegin() (err error)
+//@   requires s != nil && gvcCursorOK(s) && s.pos >= 1
+//@   modifies s.pos, s.total, heap(E_string)
+//@   ensures gvcCursorOK(s) && s.pos >= 1
+//@   loop 1 invariant group != nil && gvcCursorOK(group) && group.pos == 0 && len(group.src) == len(s.input)-s.pos && gvcCursorOK(s) && s.pos >= 1 && GvcFresh(group)
+
+//@ func (s *Scanner) Scan(input string) (stmts []*Stmt, err error)
+//@   requires s != nil
+//@   modifies *s, heap(E_string), heap(E_Pmigrate_Stmt)
+//@   loop 1 invariant gvcCursorOK(s) && s.pos == 0
